@@ -268,7 +268,16 @@ func DecorateSafe(r *core.Rng, s *Schema, d *Doc, p float64) {
 				if r.Chance(0.2) && !custom {
 					opts = append(opts, fmt.Sprintf("typename: %q", uniq("Ty")))
 				} else if leaf && r.Chance(0.15) {
-					opts = append(opts, fmt.Sprintf("bind: %q", []string{"example.com/b.T", "string", "[]example.com/c.U", "*example.com/c.V", "example.com/d/types.T5"}[r.Intn(5)]))
+					// bind to a Go type that can hold the JSON: string-kinded stubs for
+					// string-valued scalars and enums, a slice of them for one list level
+					base := sel.Type.Base()
+					stringy := base == "String" || base == "ID" || (td != nil && td.Kind == "ENUM")
+					switch {
+					case stringy && sel.Type.Elem == nil:
+						opts = append(opts, fmt.Sprintf("bind: %q", []string{"example.com/b.T", "string", "*example.com/c.V", "example.com/d/types.T5"}[r.Intn(4)]))
+					case stringy && sel.Type.Elem != nil && sel.Type.Elem.Elem == nil:
+						opts = append(opts, "bind: \"[]example.com/c.U\"")
+					}
 				}
 				onlyFields := true
 				for _, x := range sel.Sub {
